@@ -128,6 +128,30 @@ def run_config(run, tsc, mon, rng, n1d, nthread, npartition, coord, sort, offset
         run.nt((n1d, nthread, used, coord, sort, offset_cells, box, conf['dtype'], shape[0] > n1d))
     run.setmax('min_stripe_width_cells_x100_accepted_parallel', -int(100 * n1d / used))
     conflicts = mon.rec.conflicts()
+    if not conflicts and used >= 4 and rng.random() < 0.4:
+        # clustered sets: only some stripes populated (always both end stripes, which are neighbours through the
+        # periodic wrap), so that any logic keyed on which stripes are empty is exercised
+        for trial in range(1, 2) if rng.random() < 0.5 else range(0, 1):
+            nkeep = int(rng.integers(2, used))
+            keepst = sorted(set([0, used - 1] + [int(x) for x in rng.choice(np.arange(used), nkeep, replace=False)]))
+            if trial == 1 and len(keepst) % 2 == 0 and len(keepst) > 2:
+                keepst = keepst[:1] + keepst[2:]  # odd number of populated stripes
+            full = adversarial_particles(rng, shape, used, coord, box, dtype, nrand=0)
+            st = np.minimum((full[:, coord].astype(np.float64) * used / box).astype(np.int64), used - 1)
+            posc = full[np.isin(st, keepst)]
+            if len(posc) == 0:
+                continue
+            gridc = np.zeros(shape, dtype=np.float64)
+            with warnings.catch_warnings():
+                warnings.simplefilter('ignore')
+                tsc.tsc_parallel(posc.copy(), gridc, box, weights=None, nthread=nthread, wrap=False, npartition=npartition, sort=sort, coord=coord, offset=offset)
+            run.count('clustered_sets')
+            st2 = mon.rec.stats()
+            run.count('cells_recorded', st2['cells'])
+            conflicts = mon.rec.conflicts()
+            if conflicts:
+                conf['populated_stripes'] = keepst
+                break
     # the interpreted deposit must also equal the reference deposit (sanity of the monitor itself)
     if conflicts:
         harmful = [c for c in conflicts if any(c['nonzero'].values())]
